@@ -12,6 +12,7 @@ use std::sync::OnceLock;
 #[derive(Clone, Debug)]
 pub struct Case { rej_dir: bool, tru_dir: bool, in_rej: bool, tru: u8, trust_unknown: bool, skip: bool, check_time: bool,
                   pol: usize, bits: u32, tm: u8, host: u8, uri: u8 }
+pub struct Hist(Vec<Case>);
 pub struct P;
 
 const POLS: [(SecurityPolicy, &str); 5] = [(SecurityPolicy::Basic128Rsa15, "Basic128Rsa15"), (SecurityPolicy::Basic256, "Basic256"),
@@ -65,10 +66,28 @@ fn from_index(mut i: u64) -> Case {
 }
 const SPACE: u64 = 2 * 2 * 2 * 3 * 2 * 2 * 2 * 5 * 3 * 3 * 3 * 3;
 
+fn arrange(c: &Case, dir: &PathBuf, cert: &X509, other: &X509, name: &str) {
+    let rej = dir.join("rejected"); let tru = dir.join("trusted");
+    // put the directories into exactly the state of this step
+    let _ = std::fs::remove_dir_all(&rej); let _ = std::fs::remove_dir_all(&tru);
+    if c.rej_dir { std::fs::create_dir_all(&rej).unwrap(); }
+    if c.tru_dir { std::fs::create_dir_all(&tru).unwrap(); }
+    if c.rej_dir && c.in_rej { std::fs::write(rej.join(name), cert.to_der().unwrap()).unwrap(); }
+    if c.tru_dir && c.tru == 1 { std::fs::write(tru.join(name), cert.to_der().unwrap()).unwrap(); }
+    if c.tru_dir && c.tru == 2 { std::fs::write(tru.join(name), other.to_der().unwrap()).unwrap(); }
+}
+
+fn term1(c: &Case) -> String {
+    format!("(mk_case {} {} {} {} {} {} {} {} {} {} {} {})", coq_bool(c.rej_dir), coq_bool(c.tru_dir), coq_bool(c.in_rej),
+        ["TAbsent", "TSame", "TDiff"][c.tru as usize], coq_bool(c.trust_unknown), coq_bool(c.skip), coq_bool(c.check_time),
+        POLS[c.pol].1, c.bits, ["TimeValid", "TimeNotYet", "TimeExpired"][c.tm as usize],
+        ["NNone", "NMatch", "NMismatch"][c.host as usize], ["NNone", "NMatch", "NMismatch"][c.uri as usize])
+}
+
 impl Property for P {
-    type Case = Case;
-    fn fixed(tier: &str) -> Vec<Case> {
-        if tier == "thorough" { return (0..SPACE).map(from_index).collect(); }
+    type Case = Hist;
+    fn fixed(tier: &str) -> Vec<Hist> {
+        if tier == "thorough" { return (0..SPACE).map(|i| Hist(vec![from_index(i)])).collect(); }
         let base = Case { rej_dir: true, tru_dir: true, in_rej: false, tru: 1, trust_unknown: false, skip: false, check_time: true, pol: 2, bits: 2048, tm: 0, host: 1, uri: 1 };
         let mut v = vec![base.clone()];
         v.push(Case { tru: 0, ..base.clone() });                       // unknown, untrusted -> rejected store
@@ -87,47 +106,69 @@ impl Property for P {
         v.push(Case { rej_dir: false, ..base.clone() });
         v.push(Case { tru_dir: false, ..base.clone() });
         v.push(Case { tru: 0, trust_unknown: true, tm: 2, ..base.clone() });
-        v
+        let mut h: Vec<Hist> = v.into_iter().map(|c| Hist(vec![c])).collect();
+        // histories on one store instance: trust withdrawn / replaced / cert rejected after it was accepted once
+        h.push(Hist(vec![base.clone(), Case { tru: 0, ..base.clone() }]));
+        h.push(Hist(vec![base.clone(), Case { tru: 2, ..base.clone() }]));
+        h.push(Hist(vec![base.clone(), Case { in_rej: true, ..base.clone() }, base.clone()]));
+        h.push(Hist(vec![base.clone(), Case { host: 2, ..base.clone() }, Case { uri: 2, ..base.clone() }]));
+        h.push(Hist(vec![Case { tru: 0, trust_unknown: true, ..base.clone() }, Case { tru: 0, ..base.clone() }]));
+        h.push(Hist(vec![Case { skip: true, tm: 2, ..base.clone() }, Case { tm: 2, ..base.clone() }]));
+        h
     }
-    fn gen(r: &mut Rng) -> Case {
+    fn gen(r: &mut Rng) -> Hist {
         // mostly "interesting" configurations: directories present, not already rejected
-        let mut c = from_index(r.below(SPACE));
-        if r.chance(5, 6) { c.rej_dir = true; c.tru_dir = true; }
-        if r.chance(3, 4) { c.in_rej = false; }
-        c
+        let mut one = |r: &mut Rng| { let mut c = from_index(r.below(SPACE));
+            if r.chance(5, 6) { c.rej_dir = true; c.tru_dir = true; }
+            if r.chance(3, 4) { c.in_rej = false; }
+            c };
+        let first = one(r);
+        let mut h = vec![first.clone()];
+        // half of the cases are histories of 2..3 validations of the SAME certificate on one store
+        // instance; later steps differ from the first in a few components only
+        if r.chance(1, 2) {
+            for _ in 0..1 + r.below(2) {
+                let mut c = if r.chance(2, 3) { h[0].clone() } else { one(r) };
+                c.bits = first.bits; c.tm = first.tm;
+                match r.below(7) { 0 => c.tru = r.below(3) as u8, 1 => c.in_rej = !c.in_rej, 2 => c.host = r.below(3) as u8, 3 => c.uri = r.below(3) as u8,
+                                   4 => c.pol = r.below(5) as usize, 5 => c.skip = !c.skip, _ => c.trust_unknown = !c.trust_unknown }
+                h.push(c);
+            }
+        }
+        Hist(h)
     }
-    fn exec(c: &Case) -> Out {
+    fn exec(hist: &Hist) -> Out {
         static N: std::sync::atomic::AtomicU64 = std::sync::atomic::AtomicU64::new(0);
         let n = N.fetch_add(1, std::sync::atomic::Ordering::SeqCst);
         let dir = PathBuf::from(format!("/tmp/verif-c18-{}/{}", std::process::id(), n));
         let _ = std::fs::remove_dir_all(&dir);
-        let (cert, other) = &certs()[BITS.iter().position(|b| *b == c.bits).unwrap()][c.tm as usize];
-        let name = CertificateStore::cert_file_name(cert);
-        let rej = dir.join("rejected"); let tru = dir.join("trusted");
         std::fs::create_dir_all(&dir).unwrap();
-        if c.rej_dir { std::fs::create_dir_all(&rej).unwrap(); }
-        if c.tru_dir { std::fs::create_dir_all(&tru).unwrap(); }
-        if c.rej_dir && c.in_rej { std::fs::write(rej.join(&name), cert.to_der().unwrap()).unwrap(); }
-        if c.tru_dir && c.tru == 1 { std::fs::write(tru.join(&name), cert.to_der().unwrap()).unwrap(); }
-        if c.tru_dir && c.tru == 2 { std::fs::write(tru.join(&name), other.to_der().unwrap()).unwrap(); }
         let mut store = CertificateStore::new(&dir);
-        store.set_trust_unknown_certs(c.trust_unknown);
-        store.set_skip_verify_certs(c.skip);
-        store.set_check_time(c.check_time);
-        let host = match c.host { 0 => None, 1 => Some("VerifHost"), _ => Some("otherhost") };
-        let uri = match c.uri { 0 => None, 1 => Some("urn:verif:app"), _ => Some("urn:verif:other") };
-        let out = match guarded(|| store.validate_or_reject_application_instance_cert(cert, POLS[c.pol].0, host, uri)) {
-            Ok(s) => vec![class(s), rej.join(&name).exists() as i128, tru.join(&name).exists() as i128],
-            Err(_) => vec![-2],
-        };
+        let mut out = Vec::new();
+        // the setters are only called when a flag really changes (a store is configured once and
+        // then used for many validations)
+        let mut flags: Option<(bool, bool, bool)> = None;
+        for c in &hist.0 {
+            let (cert, other) = &certs()[BITS.iter().position(|b| *b == c.bits).unwrap()][c.tm as usize];
+            let name = CertificateStore::cert_file_name(cert);
+            arrange(c, &dir, cert, other, &name);
+            let f = flags.unwrap_or((!c.trust_unknown, !c.skip, !c.check_time));
+            if f.0 != c.trust_unknown { store.set_trust_unknown_certs(c.trust_unknown); }
+            if f.1 != c.skip { store.set_skip_verify_certs(c.skip); }
+            if f.2 != c.check_time { store.set_check_time(c.check_time); }
+            flags = Some((c.trust_unknown, c.skip, c.check_time));
+            let host = match c.host { 0 => None, 1 => Some("VerifHost"), _ => Some("otherhost") };
+            let uri = match c.uri { 0 => None, 1 => Some("urn:verif:app"), _ => Some("urn:verif:other") };
+            match guarded(|| store.validate_or_reject_application_instance_cert(cert, POLS[c.pol].0, host, uri)) {
+                Ok(s) => out.extend([class(s), dir.join("rejected").join(&name).exists() as i128, dir.join("trusted").join(&name).exists() as i128]),
+                Err(_) => out.extend([-2, 0, 0]),
+            }
+        }
         let _ = std::fs::remove_dir_all(&dir);
-        // abstract in_rej / tru only make sense when the directory exists; the model masks them the same way
-        let tag = format!("{}{}{}", ["unknown", "trusted", "tampered"][c.tru as usize], if c.in_rej { "-rejected" } else { "" }, if c.skip { "-skipverify" } else { "" });
-        let term = format!("(mk_case {} {} {} {} {} {} {} {} {} {} {} {})", coq_bool(c.rej_dir), coq_bool(c.tru_dir), coq_bool(c.in_rej),
-            ["TAbsent", "TSame", "TDiff"][c.tru as usize], coq_bool(c.trust_unknown), coq_bool(c.skip), coq_bool(c.check_time),
-            POLS[c.pol].1, c.bits, ["TimeValid", "TimeNotYet", "TimeExpired"][c.tm as usize],
-            ["NNone", "NMatch", "NMismatch"][c.host as usize], ["NNone", "NMatch", "NMismatch"][c.uri as usize]);
-        Out { tag, term, out }
+        let c = &hist.0[0];
+        let tag = format!("{}{}{}{}", ["unknown", "trusted", "tampered"][c.tru as usize], if c.in_rej { "-rejected" } else { "" }, if c.skip { "-skipverify" } else { "" },
+                          if hist.0.len() > 1 { "-history" } else { "" });
+        Out { tag, term: coq_list(&hist.0, term1), out }
     }
 }
 fn main() { run_main::<P>() }
